@@ -30,29 +30,36 @@ Theorem C27_exec_form : forall (i : dinfo) (df line b : bytes),
 Proof. exact process_line_exec. Qed.
 Print Assumptions C27_exec_form.
 
-(* as written to the installed file (after the ${SNAP} substitution) the line keeps that form and, as launched (words
-   split at spaces, env skips NAME=VALUE words), the program that runs is the wrapper — UNDER THE GUARD that the installed
-   desktop file name contains no space and no $ (and the wrapper paths contain no space, = or $, which holds for
-   validated snap and app names) *)
+(* as written to the installed file (after the ${SNAP} substitution) the line still starts with Exec=env and, as launched
+   per the Desktop Entry specification (arguments split at spaces; a double-quoted argument is one word in which a
+   backslash makes the next byte literal; %% is a literal percent; env skips NAME=VALUE words), the program that runs is
+   the wrapper of one of the snap's apps — FOR EVERY installed desktop file name df (any bytes: spaces, quotes,
+   backslashes, $, %, ${SNAP}, ...). This is the statement that was refuted before the repair 0f3f7c0 (quoteExecArg).
+   Remaining guards, all on paths snapd itself builds from validated names: the wrapper paths contain no space, =, $,
+   double quote or % (dirs.SnapBinariesDir + validated snap/instance/app names), and the mount directory is non-empty
+   and contains no double quote, backslash or $ (it is substituted for ${SNAP}, possibly inside the quoted argument). *)
 Theorem C27_exec_launches_wrapper : forall (i : dinfo) (df b : bytes),
   exec_form i df b ->
-  forallb (fun c => no_space c && no_dollar c) df = true ->
+  mount_ok (d_mount i) = true ->
   (forall app, In app (d_apps i) -> forallb plain (wrapper i app) = true) ->
-  exists app rest', In app (d_apps i) /\
-    subst_snap (d_mount i) b = lit_exec ++ exec_env df ++ wrapper i app ++ rest' /\
-    (rest' = [] \/ exists r', rest' = 32 :: r') /\
+  exists app, In app (d_apps i) /\
+    has_prefix (lit_exec ++ lit_env) (subst_snap (d_mount i) b) = true /\
     launched (subst_snap (d_mount i) b) = Some (wrapper i app).
 Proof. exact exec_output_launches. Qed.
 Print Assumptions C27_exec_launches_wrapper.
 
-(* without the guard the statement is false (finding): a desktop file named `a sh -c id x.desktop` in meta/gui yields an
-   Exec= line whose launched program is `sh`, not a wrapper of the snap *)
-Theorem C27_exec_filename_refuted :
-  exists i df line l, In l (sanitize_lines i df [line]) /\ has_prefix lit_exec l = true /\
-    (forall app, In app (d_apps i) -> forallb plain (wrapper i app) = true) /\
-    forall app, In app (d_apps i) -> launched l <> Some (wrapper i app).
-Proof. exact exec_filename_refuted. Qed.
-Print Assumptions C27_exec_filename_refuted.
+(* desktop files whose name contains a control character (a line break would add lines to the generated file) are
+   skipped by deriveDesktopFilesContent and never reach the sanitizer *)
+Theorem C27_control_names_skipped : forall (i : dinfo) (dir file content : bytes),
+  has_control file = true -> derive_one i dir file content = None.
+Proof. exact control_names_skipped. Qed.
+Print Assumptions C27_control_names_skipped.
+
+(* regression examples for the repaired finding: the name `a sh -c id x.desktop` is now one quoted word after env and the
+   wrapper is launched; so is a name made of quotes, backslash, $, %, backquotes and ${SNAP} *)
+Example C27_exec_filename_quoted :
+  launched (hd [] (sanitize_lines bad_info bad_df [bad_content])) = Some (wrapper bad_info (hd [] (d_apps bad_info))).
+Proof. vm_compute. reflexivity. Qed.
 
 (* an Icon= line naming a path is kept only, unchanged, when the path starts with ${SNAP}/ and has no empty, . or ..
    segment (so after the substitution it lies inside the snap's mount directory) *)
@@ -78,7 +85,8 @@ Theorem C27_allowlist_pinned : DesktopRegexes.valid_line_alts = spec_line_alts.
 Proof. exact allowlist_pinned. Qed.
 Print Assumptions C27_allowlist_pinned.
 
-(* non-vacuity: an ordinary file (the guard holds) is sanitized as expected: see DesktopProofs.exec_ok_example *)
-Example C27_example : forallb (fun c => no_space c && no_dollar c) [47; 120; 46; 100] = true /\
+(* non-vacuity: the guards of C27_exec_launches_wrapper hold for an ordinary snap, and an ordinary file is tagged *)
+Example C27_example :
+  mount_ok (d_mount bad_info) = true /\ forallb plain (wrapper bad_info (hd [] (d_apps bad_info))) = true /\
   sanitize_lines bad_info [47; 120; 46; 100] [lit_desktop_entry] = [lit_desktop_entry; xsnap_line bad_info].
-Proof. vm_compute. split; reflexivity. Qed.
+Proof. vm_compute. repeat split; reflexivity. Qed.
